@@ -2,6 +2,7 @@ INIT ObsInit
 NEXT ObsNext
 INVARIANT WellFormed
 INVARIANT R_NoPanic
+INVARIANT R_NoStall
 INVARIANT Unresolved
 INVARIANT ObsDrift
 POSTCONDITION Consumed
